@@ -1006,8 +1006,26 @@ def generate(repo):
     return "\n".join(o), meta
 
 
+META_CACHE = os.path.join(ROOT, "lean", "AllfedModel", "Gen", "ScenarioTable.meta.pickle")
+
+
+def last_good_meta():
+    """metadata of the table currently on disk (written by the last successful translation); used by the correspondence
+    when today's source is outside the grammar, so that the OLD model can still be run against the CHANGED code"""
+    import pickle
+    with open(META_CACHE, "rb") as f:
+        return pickle.load(f)
+
+
 def run(ctx):
     body, meta = generate(ctx.repo)
+    import pickle
+    slim = {k: v for k, v in meta.items() if k != "files"}
+    blob = pickle.dumps(slim, protocol=4)
+    if not os.path.exists(META_CACHE) or open(META_CACHE, "rb").read() != blob:
+        os.makedirs(os.path.dirname(META_CACHE), exist_ok=True)
+        with open(META_CACHE, "wb") as f:
+            f.write(blob)
     old = open(OUT).read() if os.path.exists(OUT) else None
     if old != body:
         os.makedirs(os.path.dirname(OUT), exist_ok=True)
